@@ -48,7 +48,10 @@ class NarrowStr(T.NonEmptyStr, pattern=r"[a-z]+"):
 _n = [0]
 
 
-def mk(base, ann=None, plugin=False, ovr=False, mandatory=False, extra=None, add_field=False):
+_NODEFAULT = object()
+
+
+def mk(base, ann=None, plugin=False, ovr=False, mandatory=False, extra=None, add_field=False, default=_NODEFAULT):
     _n[0] += 1
     name = f"C13_{_n[0]}"
     ns = {"__module__": "vt_generated", "__qualname__": name}
@@ -59,6 +62,8 @@ def mk(base, ann=None, plugin=False, ovr=False, mandatory=False, extra=None, add
         anns["y"] = Optional[T.Int]
     if anns:
         ns["__annotations__"] = anns
+    if default is not _NODEFAULT:
+        ns["x"] = default
     if plugin:
         ns["Plugin"] = type("Plugin", (), {"name": "vt." + name.lower(), "version": (0, 1, 0)})
     if extra:
@@ -127,7 +132,8 @@ CORPUS = [None, True, False, 0, 1, -1, 7, 2 ** 40, 0.0, 1.0, -1.5, 0.5, "", " ",
           {"b": 1, "s": "x"}, {"o": True}, [{"b": 1}], [{"b": 1, "s": "x"}], [{}], {"b": "1"}, "1", [0, 1], ["A"], "text/plain;x",
           {"b": "text"}, [{"b": "text"}]]
 
-SHAPES = ["direct", "direct_override", "middle", "middle_override", "mandatory_then", "mandatory_multi_then", "forbid_parent"]
+SHAPES = ["direct", "direct_override", "middle", "middle_override", "mandatory_then", "mandatory_multi_then", "forbid_parent",
+          "default_none"]
 
 
 def build_chain(ptype, ctype, shape):
@@ -160,6 +166,10 @@ def build_chain(ptype, ctype, shape):
         m = mk(p, None, plugin=True, mandatory=("x", "y"))
         leaf = mk(m, ctype, plugin=True)
         return [(p, False), (m, False)], leaf
+    if shape == "default_none":  # the child repeats the parent's hint but gives the field the default None
+        p = mk(MetadataSchema, ptype, plugin=True)
+        c = mk(p, ptype, plugin=True, default=None)
+        return [(p, False)], c
     if shape == "forbid_parent":
         p = mk(MetadataSchema, ptype, plugin=True, extra="forbid")
         c = mk(p, ctype, plugin=True, extra="forbid")
@@ -193,6 +203,8 @@ def check_pair(pname, ptype, cname, ctype, shape, rec=None):
         classes.append("mandatory_several_names")
     if shape == "forbid_parent":
         classes.append("extra_forbid_parent")
+    if shape == "default_none":
+        classes.append("child_default_none")
     if refused:
         # (completeness is not asserted) - only record whether the corpus could have told the difference
         witness = _find_witness_by_types(ptype, ctype, shape)
@@ -218,7 +230,7 @@ def check_pair(pname, ptype, cname, ctype, shape, rec=None):
             try:
                 a.parse_raw(raw)
             except Exception as e:  # noqa: BLE001
-                kind = "undeclared-override-accepted" if pname != cname or shape.startswith("mandatory") else "same-type"
+                kind = "undeclared-override-accepted" if pname != cname or shape.startswith("mandatory") or shape == "default_none" else "same-type"
                 raise Violation(f"C13:child-accepts-parent-rejects:{shape}:{kind}",
                                 f"parent field {pname}, child field {cname}, shape {shape}: leaf accepts x={v!r} (serialised {raw[:80]!r}) "
                                 f"but ancestor {a.__name__} rejects it: {str(e)[:160]}", "refused by check_types, or parent accepts")
@@ -377,6 +389,8 @@ def run_shard(shard, tier, seed, rec):
                 for shape in SHAPES:
                     if shape.startswith("mandatory") and pn.startswith("Optional["):
                         continue
+                    if shape == "default_none" and (cn != pn or pn.startswith("Optional[")):
+                        continue  # (the shape uses the parent's type only)
                     try:
                         check_pair(pn, P[pn], cn, P[cn], shape, rec)
                     except Violation as v:
@@ -426,7 +440,7 @@ def run_shard(shard, tier, seed, rec):
         def t_deep(c):
             pn, pt = mkdeep(c[0], c[1])
             cn, ct = mkdeep(c[2], c[3])
-            if c[4].startswith("mandatory") and pn.startswith("Optional["):
+            if (c[4].startswith("mandatory") or c[4] == "default_none") and pn.startswith("Optional["):
                 return
             try:
                 check_pair(pn, pt, cn, ct, c[4], rec)
